@@ -14,6 +14,7 @@ From Wbxml Require Model.EncWbxml Model.TreeNorm Proofs.TreeNormProofs Proofs.En
      Proofs.EncWbxmlTblOk Proofs.EncWbxmlDenote3.
 From Wbxml Require Model.EncXml Model.XmlRead Proofs.EncXmlProofs Proofs.EncXmlIndent.
 From Wbxml Require Model.XmlFront Model.XmlFrontEvents Model.ConvXml2Wbxml Proofs.FrontSimple Proofs.XmlFrontInverse.
+From Wbxml Require Proofs.EncWbxmlSize Proofs.EncWbxmlSize2 Proofs.EncWbxmlSuccess.
 Import ListNotations.
 Local Open Scope N_scope.
 
@@ -385,6 +386,36 @@ Proof.
   induction ch as [|x r IHr]; [exact I|]. destruct Hall as [Hx Hr]. split; [exact (IH x (S d) Hx)|exact (IHr Hr)].
 Qed.
 
+(* ---- "every element can be written" and "no empty name" as predicates on items (they only look at elements, so the
+   blank-text normal form does not disturb them) ---- *)
+Section EncItems.
+Variables (L : lang) (e : E.env).
+
+Definition pe2 (d : nat) (n : E.bytes) (a : list (E.bytes * E.bytes)) : Prop :=
+  SU.elt_encodable e (fst (XF.resolve_tag L n)) (map (XF.resolve_attr L) a) /\
+  SZ2.name_ok (E.tag_xml_name (fst (XF.resolve_tag L n))) /\ Forall SZ2.attr_ok (map (XF.resolve_attr L) a).
+
+Lemma enc_items : forall it d, SU.encodable e (etq L it) -> SZ2.names_ok (etq L it) -> Pall pe2 d it.
+Proof.
+  fix IH 1. intros it d HE HN. destruct it as [n a c|t]; [|exact I].
+  cbn [etq SU.encodable SZ2.names_ok] in HE, HN. destruct HE as [H1 HK]. destruct HN as (N1 & N2 & NK).
+  apply (proj2 (Pall_xe _ _ _ _ _)). split; [unfold pe2; tauto|].
+  induction c as [|x r IHr]; [exact I|]. cbn [map] in HK, NK. destruct HK as [Hx Hr]. destruct NK as [Nx Nr].
+  split; [exact (IH x (S d) Hx Nx)|exact (IHr Hr Nr)].
+Qed.
+
+Lemma items_enc : forall it d, Pall pe2 d it -> SU.encodable e (etq L it) /\ SZ2.names_ok (etq L it).
+Proof.
+  fix IH 1. intros it d H. destruct it as [n a c|t]; [|split; exact I].
+  apply (proj1 (Pall_xe _ _ _ _ _)) in H. destruct H as [(H1 & N1 & N2) HK].
+  assert (HC : (fix all (l : list E.node) : Prop := match l with [] => True | x :: r => SU.encodable e x /\ all r end) (map (etq L) c) /\
+               (fix all (l : list E.node) : Prop := match l with [] => True | x :: r => SZ2.names_ok x /\ all r end) (map (etq L) c)).
+  { induction c as [|x r IHr]; [split; exact I|]. destruct HK as [Hx Hr]. destruct (IH x (S d) Hx) as [E1 E2]. destruct (IHr Hr) as [E3 E4].
+    cbn [map]. split; split; assumption. }
+  cbn [etq SU.encodable SZ2.names_ok]. tauto.
+Qed.
+End EncItems.
+
 Definition qns (cur : option E.bytes) (a : list (E.bytes * E.bytes)) : option E.bytes :=
   match find is_xmlns a with Some kv => Some (snd kv) | None => cur end.
 Definition qtag (L : lang) (cur : option E.bytes) (n : E.bytes) (a : list (E.bytes * E.bytes)) : E.tagname :=
@@ -417,6 +448,7 @@ Theorem second_iteration_indent_wide (L : lang) o o' tag attrs ch2 x :
   XP.lang_ok xl = true -> XI.node_ok_g xl xoc X.proot None (to_xnode TBL L root') = true ->
   X.is_syncml xl = false ->
   tgoodW L xoc root' -> cokW L xoc wa 0 R2 ->
+  Proofs.EncWbxmlSize.lang_vals_ok (D2.to_blang L) -> SZ2.names_ok R2 -> SU.encodable e R2 ->
   LangSelect.search_table main (option_map XF.str (X.xl_pub xl)) (Some (XF.str (X.xl_dtd xl))) None = Some L ->
   enormalW false R2 ->
   E.find_lang btbl (l_id L) = Some (D2.to_blang L) ->
@@ -435,11 +467,12 @@ Theorem second_iteration_indent_wide (L : lang) o o' tag attrs ch2 x :
     events_of_info_ns d = XV.doc_events L (X.xl_root xl) (Some (X.xl_dtd xl)) (X.xl_pub xl) Tind /\
     forall doc2, doc2 <> [] ->
       XF.tree_from_xml main sub doc2 (events_of_info_ns d) true = inl (XF.mk_xtree (l_id L) 0 [Tind]) /\
-      forall w2, E.enc_wbxml btbl (D2.to_blang L) o [Tind] = E.EOk w2 -> E.len w2 < 4294967296 ->
-        r_out (ConvXml2Wbxml.xml2wbxml_events main btbl sub (events_of_info_ns d) true o doc2) = Some w2 /\
-        wbxml2xml_model TBL o' w2 = mk_res ST_OK (Some (x ++ [0])) (N.of_nat (length x)).
+      exists w2, E.enc_wbxml btbl (D2.to_blang L) o [Tind] = E.EOk w2 /\
+        (E.len w2 < 4294967296 ->
+         r_out (ConvXml2Wbxml.xml2wbxml_events main btbl sub (events_of_info_ns d) true o doc2) = Some w2 /\
+         wbxml2xml_model TBL o' w2 = mk_res ST_OK (Some (x ++ [0])) (N.of_nat (length x))).
 Proof.
-  intros e wa R2 root' xl xoc nmx ax sa Hgen Hx Hkeep Hlok Hokc Hsyn Htg Hcok Hst Hen Hfl HP HV HX HFind Hch Hcs Hv Hp1 Hp0 Hpid Hnd.
+  intros e wa R2 root' xl xoc nmx ax sa Hgen Hx Hkeep Hlok Hokc Hsyn Htg Hcok HVO HNO HEN Hst Hen Hfl HP HV HX HFind Hch Hcs Hv Hp1 Hp0 Hpid Hnd.
   set (chx := map (to_xnode TBL L) (map (tnodeW wa) ch2)).
   assert (Hroot : to_xnode TBL L root' = X.Elt nmx ax chx) by reflexivity.
   rewrite Hroot in Hx, Hokc.
@@ -503,7 +536,13 @@ Proof.
     f_equal. rewrite <- ev_item_qual. exact (good_eventsW L qi 0%nat Pi). }
   split; [exact Hev|]. intros doc2 Hd2. rewrite Hev.
   pose proof (XV.front_inverts_doc main sub doc2 L XV.no_emb (XV.no_emb_ok main sub doc2 L) (X.xl_root xl) (Some (X.xl_dtd xl)) (X.xl_pub xl) Tind Hd2 Hst HcanT) as Hfront.
-  split; [exact Hfront|]. intros w2 He Hlen.
+  split; [exact Hfront|].
+  (* the encoding of Tind succeeds: its elements are those of R2 *)
+  assert (HencT : SU.encodable e Tind /\ SZ2.names_ok Tind).
+  { apply (items_enc L e qi 0%nat). apply (Pall_nb (pe2 L e)). rewrite Hqnb. apply (Pall_nb (pe2 L e)).
+    apply enc_items; rewrite Ec'; assumption. }
+  destruct (SU.enc_wbxml_total btbl (D2.to_blang L) o [Tind] HP HVO (conj (proj2 HencT) I) (conj (proj1 HencT) I)) as [w2 He].
+  exists w2. split; [exact He|]. intros Hlen.
   rewrite Hshape in Hfront, He, HTT, Hnorm.
   assert (Hout : r_out (ConvXml2Wbxml.xml2wbxml_events main btbl sub (XV.doc_events L (X.xl_root xl) (Some (X.xl_dtd xl)) (X.xl_pub xl) Tind) true o doc2) = Some w2).
   { unfold ConvXml2Wbxml.xml2wbxml_events, conv_run. destruct doc2 as [|d0 dr]; [congruence|]. cbv beta. rewrite Hshape, Hfront.
@@ -547,6 +586,7 @@ Theorem roundtrip_and_idempotence_indent_wide evs expat_ok o doc w (L : lang) ta
      E.find_lang btbl (XF.xt_lang t0) = Some (D2.to_blang L) /\ XF.xt_roots t0 = [root]) ->
   Proofs.EncWbxmlAbs.plain_env e = true -> D2.vals_ok L = true -> l_exts L = None ->
   TK.tree_ok3 L 0 root = true ->
+  Proofs.EncWbxmlSize.lang_vals_ok (D2.to_blang L) -> SZ2.names_ok root ->
   find (fun y => l_id y =? l_id L) TBL = Some L ->
   lang_choiceW TBL L e (wo_lang o') -> wo_charset o' = 0 ->
   E.o_version o < 4 -> E.header_public_id e < 4294967296 -> E.header_public_id e <> 0 ->
@@ -568,11 +608,18 @@ Theorem roundtrip_and_idempotence_indent_wide evs expat_ok o doc w (L : lang) ta
     events_of_info_ns d = XV.doc_events L (X.xl_root xl) (Some (X.xl_dtd xl)) (X.xl_pub xl) Tind /\
     forall doc2, doc2 <> [] ->
       XF.tree_from_xml main sub doc2 (events_of_info_ns d) true = inl (XF.mk_xtree (l_id L) 0 [Tind]) /\
-      forall w2, E.enc_wbxml btbl (D2.to_blang L) o [Tind] = E.EOk w2 -> E.len w2 < 4294967296 ->
-        r_out (ConvXml2Wbxml.xml2wbxml_events main btbl sub (events_of_info_ns d) true o doc2) = Some w2 /\
-        wbxml2xml_model TBL o' w2 = mk_res ST_OK (Some (x ++ [0])) (N.of_nat (length x)).
+      exists w2, E.enc_wbxml btbl (D2.to_blang L) o [Tind] = E.EOk w2 /\
+        (E.len w2 < 4294967296 ->
+         r_out (ConvXml2Wbxml.xml2wbxml_events main btbl sub (events_of_info_ns d) true o doc2) = Some w2 /\
+         wbxml2xml_model TBL o' w2 = mk_res ST_OK (Some (x ++ [0])) (N.of_nat (length x))).
 Proof.
-  intros e wa root R2 root' xl xoc nmx ax sa H1 Hlen Hfront HP HV HX HT HFind Hch Hcs Hv Hp1 Hp0 Hpid Hnd Hsrc Hfl Hst Hgen Hkeep Hsyn Hlok Hok.
+  intros e wa root R2 root' xl xoc nmx ax sa H1 Hlen Hfront HP HV HX HT HVO HNO HFind Hch Hcs Hv Hp1 Hp0 Hpid Hnd Hsrc Hfl Hst Hgen Hkeep Hsyn Hlok Hok.
+  assert (He1 : E.enc_wbxml btbl (D2.to_blang L) o [root] = E.EOk w).
+  { revert H1. unfold ConvXml2Wbxml.xml2wbxml_events, conv_run. destruct doc as [|d0 dr]; [discriminate|].
+    destruct (XF.tree_from_xml main sub (d0 :: dr) evs expat_ok) as [t0|er] eqn:Et; [|discriminate].
+    destruct (Hfront t0 eq_refl) as [Hl Hroots]. unfold ConvXml2Wbxml.encode_tree. rewrite Hl, Hroots.
+    destruct (E.enc_wbxml btbl (D2.to_blang L) o [root]) as [bs|ee]; [|discriminate]. cbn [r_out]. intros H. injection H as ->. reflexivity. }
+  destruct (SU.enc_norm_success btbl L o false tag attrs ch w HP HVO HNO HT He1) as (HEN2 & HNO2 & _).
   rewrite Hkeep in Hnd.
   set (ch2 := flat_map (TN.norm_node false false) ch) in *.
   assert (Hnorm : TN.norm_node false false root = [R2]) by reflexivity.
@@ -593,7 +640,7 @@ Proof.
   pose proof (normal_fixW wa false R2 Hen) as Hfix. rewrite (norm_fixEW R2 Hen) in Hfix. cbn [flat_map tnw tnodeW app R2] in Hfix. injection Hfix as Hfix.
   fold ch2 in Hfix. rewrite Hfix, Hgen in Hx. fold xl in Hx.
   assert (Hx' : X.enc_xml xl X.Indent (wo_indent o') (wo_keep_ws o') [to_xnode TBL L root'] = X.XOk x) by exact Hx.
-  destruct (second_iteration_indent_wide main TBL btbl sub L o o' tag attrs ch2 x Hgen Hx' Hkeep Hlok Hok Hsyn Htg Hcok Hst Hen Hfl
+  destruct (second_iteration_indent_wide main TBL btbl sub L o o' tag attrs ch2 x Hgen Hx' Hkeep Hlok Hok Hsyn Htg Hcok HVO HNO2 HEN2 Hst Hen Hfl
               HP HV HX HFind Hch Hcs Hv Hp1 Hp0 Hpid Hnd2) as (ci & d & Hd & Hread & Hrest).
   exists x, ci, d. split; [exact Hm|]. split; [exact Hx'|]. split; [exact Hd|]. split; [exact Hread|]. exact Hrest.
 Qed.
